@@ -300,12 +300,16 @@ func (e *encoder) mapEntries(m *omap, et types.Type, depth int, _ bool) {
 
 func (i *interpreter) renderEncoded(fr *frame, v value, json bool) ([]value, value) {
 	e := &encoder{i: i, fr: fr, json: json}
-	e.encode(nil, v, 0)
+	tr := e.tree(nil, v, 0)
 	i.ps.intr["encoder-model"]++
 	if e.err != nil {
 		return nil, e.err
 	}
-	return e.out, nil
+	id := len(i.ps.trees)
+	i.ps.trees = append(i.ps.trees, tr)
+	out := strBytes(fmt.Sprintf("%s%d\n", treeMarker, id))
+	textOf(tr, &out)
+	return out, nil
 }
 
 func init() {
@@ -351,4 +355,430 @@ func init() {
 		call(fr.i, fr, token.NoPos, m, []value{w.v, out})
 		return iface{}
 	})
+}
+
+
+// ---- tree form of the same rendering: what a decoder would read back from the bytes
+
+func anyOf(v value) value { return asAny(v) }
+
+func (e *encoder) tree(t types.Type, v value, depth int) value {
+	if e.err != nil || depth > 50 {
+		return nil
+	}
+	if x, ok := v.(iface); ok {
+		if x.t == nil {
+			return nil
+		}
+		return e.tree(x.t, x.v, depth+1)
+	}
+	if t != nil {
+		if _, isPtr := t.Underlying().(*types.Pointer); isPtr {
+			if p, ok := v.(*value); ok && p == nil {
+				return nil
+			}
+		}
+		if _, ok := e.marshaler(t); ok {
+			name := "MarshalYAML"
+			if e.json {
+				name = "MarshalJSON"
+			}
+			if m := e.i.methodByName(t, name); m != nil {
+				res := call(e.i, e.fr, token.NoPos, m, []value{v}).(tuple)
+				if er, ok := res[1].(iface); ok && er.t != nil {
+					e.err = er
+					return nil
+				}
+				if e.json {
+					b := res[0].([]value)
+					if tr, ok := e.i.ps.lookupTree(b); ok {
+						return tr
+					}
+					if tr, ok := parseJSONText(b); ok {
+						return tr
+					}
+					e.err = e.i.mkError(e.fr, "json: error calling MarshalJSON: invalid JSON text")
+					return nil
+				}
+				return e.tree(nil, res[0], depth+1)
+			}
+		}
+	}
+	switch x := v.(type) {
+	case nil:
+		return nil
+	case string, sstr, bool:
+		return x
+	case sym:
+		if x.t.srt == 0 {
+			return e.i.ps.branch(x.t)
+		}
+		return int(e.i.concIntVal(x))
+	case float32:
+		return float64(x)
+	case float64:
+		return x
+	case *value:
+		if x == nil {
+			return nil
+		}
+		var et types.Type
+		if t != nil {
+			if pt, ok := t.Underlying().(*types.Pointer); ok {
+				et = pt.Elem()
+			}
+		}
+		return e.tree(et, *x, depth+1)
+	case []value:
+		var et types.Type
+		if t != nil {
+			if st, ok := t.Underlying().(*types.Slice); ok {
+				et = st.Elem()
+			}
+		}
+		if x == nil && e.json {
+			return nil
+		}
+		out := make([]value, len(x))
+		for k, el := range x {
+			out[k] = anyOf(e.tree(et, el, depth+1))
+		}
+		return out
+	case array:
+		out := make([]value, len(x))
+		for k, el := range x {
+			out[k] = anyOf(e.tree(nil, el, depth+1))
+		}
+		return out
+	case *omap:
+		var et types.Type
+		if t != nil {
+			if mt, ok := t.Underlying().(*types.Map); ok {
+				et = mt.Elem()
+			}
+		}
+		if x == nil && e.json {
+			return nil
+		}
+		out := makeMap(types.Typ[types.String], 0).(*omap)
+		e.treeEntries(out, x, et, depth)
+		return out
+	case structure:
+		st, _ := t.Underlying().(*types.Struct)
+		out := makeMap(types.Typ[types.String], 0).(*omap)
+		if st == nil {
+			return out
+		}
+		tagName := "yaml"
+		if e.json {
+			tagName = "json"
+		}
+		for k := 0; k < st.NumFields(); k++ {
+			f := st.Field(k)
+			if !f.Exported() {
+				continue
+			}
+			tag := reflect.StructTag(st.Tag(k)).Get(tagName)
+			name, opts, _ := strings.Cut(tag, ",")
+			if name == "-" {
+				continue
+			}
+			if name == "" {
+				name = f.Name()
+				if !e.json {
+					name = strings.ToLower(name)
+				}
+			}
+			if strings.Contains(opts, "omitempty") && e.isZero(f.Type(), x[k]) {
+				continue
+			}
+			if strings.Contains(opts, "inline") && !e.json {
+				if m, ok := x[k].(*omap); ok {
+					var et types.Type
+					if mt, ok := f.Type().Underlying().(*types.Map); ok {
+						et = mt.Elem()
+					}
+					e.treeEntries(out, m, et, depth)
+					continue
+				}
+			}
+			out.insert(e.i, name, anyOf(e.tree(f.Type(), x[k], depth+1)))
+		}
+		return out
+	}
+	if k := kindOfValue(v); k != types.Invalid {
+		return int(asInt64(v))
+	}
+	return fmt.Sprintf("<%T>", v)
+}
+
+func (e *encoder) treeEntries(out *omap, m *omap, et types.Type, depth int) {
+	if m == nil {
+		return
+	}
+	for _, en := range m.live() {
+		k := en.key
+		if !isStr(k) {
+			k = toString(k)
+		}
+		out.insert(e.i, k, anyOf(e.tree(et, en.val, depth+1)))
+	}
+}
+
+// textOf serialises a tree canonically (sorted keys); every string appears verbatim.
+func textOf(v value, out *[]value) {
+	w := func(s string) { *out = append(*out, strBytes(s)...) }
+	switch x := unwrapAny(v).(type) {
+	case nil:
+		w("null")
+	case string, sstr:
+		w("\"")
+		*out = append(*out, strBytes(x)...)
+		w("\"")
+	case []value:
+		w("[")
+		for k, el := range x {
+			if k > 0 {
+				w(",")
+			}
+			textOf(el, out)
+		}
+		w("]")
+	case *omap:
+		w("{")
+		es := x.live()
+		conc := true
+		for _, en := range es {
+			if _, ok := en.key.(string); !ok {
+				conc = false
+			}
+		}
+		if conc {
+			sort.SliceStable(es, func(a, b int) bool { return es[a].key.(string) < es[b].key.(string) })
+		}
+		for k, en := range es {
+			if k > 0 {
+				w(",")
+			}
+			w("\"")
+			*out = append(*out, strBytes(en.key)...)
+			w("\":")
+			textOf(en.val, out)
+		}
+		w("}")
+	default:
+		w(fmt.Sprint(x))
+	}
+}
+
+func (ps *pathState) lookupTree(b []value) (value, bool) {
+	s, ok := mkStr(b).(string)
+	if !ok {
+		// symbolic content: only the marker prefix must be concrete
+		var sb []byte
+		for _, c := range b {
+			cc, isC := c.(uint8)
+			if !isC || cc == '\n' {
+				break
+			}
+			sb = append(sb, cc)
+		}
+		s = string(sb)
+	}
+	if !strings.HasPrefix(s, treeMarker) {
+		return nil, false
+	}
+	rest := s[len(treeMarker):]
+	n := 0
+	for n < len(rest) && rest[n] >= '0' && rest[n] <= '9' {
+		n++
+	}
+	var id int
+	fmt.Sscanf(rest[:n], "%d", &id)
+	if id < len(ps.trees) {
+		return ps.trees[id], true
+	}
+	return nil, false
+}
+
+const treeMarker = "#vrt-rendered:"
+
+func init() {
+	// vrtDecodeRendered(b []byte, json bool) (map[string]any, bool): what a decoder reads back
+	vrtIntrinsics["vrtDecodeRendered"] = func(fr *frame, a []value) value {
+		tr, ok := fr.i.ps.lookupTree(a[0].([]value))
+		if !ok {
+			return tuple{(*omap)(nil), false}
+		}
+		m, ok := snapshotValue(tr, 0).(*omap)
+		if !ok {
+			return tuple{(*omap)(nil), false}
+		}
+		return tuple{m, true}
+	}
+}
+
+// parseJSONText reads hand-built JSON text returned by a MarshalJSON method (structural
+// characters concrete, string contents possibly symbolic).
+func parseJSONText(b []value) (value, bool) {
+	p := &jsonp{b: b}
+	v, ok := p.val()
+	p.ws()
+	if !ok || p.i != len(b) {
+		return nil, false
+	}
+	return v, true
+}
+
+type jsonp struct {
+	b []value
+	i int
+}
+
+func (p *jsonp) c() (byte, bool) {
+	if p.i >= len(p.b) {
+		return 0, false
+	}
+	x, ok := p.b[p.i].(uint8)
+	return x, ok
+}
+func (p *jsonp) ws() {
+	for {
+		c, ok := p.c()
+		if !ok || (c != ' ' && c != '\n' && c != '\t' && c != '\r') {
+			return
+		}
+		p.i++
+	}
+}
+func (p *jsonp) val() (value, bool) {
+	p.ws()
+	c, ok := p.c()
+	if !ok {
+		return nil, false
+	}
+	switch {
+	case c == '"':
+		p.i++
+		var out []value
+		for p.i < len(p.b) {
+			x := p.b[p.i]
+			if cc, isC := x.(uint8); isC {
+				if cc == '"' {
+					p.i++
+					return mkStr(out), true
+				}
+				if cc == '\\' && p.i+1 < len(p.b) {
+					p.i++
+					if n, ok := p.b[p.i].(uint8); ok {
+						switch n {
+						case 'n':
+							out = append(out, byte('\n'))
+						case 't':
+							out = append(out, byte('\t'))
+						default:
+							out = append(out, n)
+						}
+						p.i++
+						continue
+					}
+				}
+			}
+			out = append(out, x)
+			p.i++
+		}
+		return nil, false
+	case c == '{':
+		p.i++
+		m := makeMap(types.Typ[types.String], 0).(*omap)
+		p.ws()
+		if c, _ := p.c(); c == '}' {
+			p.i++
+			return m, true
+		}
+		for {
+			k, ok := p.val()
+			if !ok || !isStr(k) {
+				return nil, false
+			}
+			p.ws()
+			if c, _ := p.c(); c != ':' {
+				return nil, false
+			}
+			p.i++
+			v, ok := p.val()
+			if !ok {
+				return nil, false
+			}
+			m.insert(nil, k, asAny(v))
+			p.ws()
+			c, _ := p.c()
+			p.i++
+			if c == '}' {
+				return m, true
+			}
+			if c != ',' {
+				return nil, false
+			}
+		}
+	case c == '[':
+		p.i++
+		out := []value{}
+		p.ws()
+		if c, _ := p.c(); c == ']' {
+			p.i++
+			return out, true
+		}
+		for {
+			v, ok := p.val()
+			if !ok {
+				return nil, false
+			}
+			out = append(out, asAny(v))
+			p.ws()
+			c, _ := p.c()
+			p.i++
+			if c == ']' {
+				return out, true
+			}
+			if c != ',' {
+				return nil, false
+			}
+		}
+	default:
+		st := p.i
+		for {
+			c, ok := p.c()
+			if !ok || strings.IndexByte(",]} \n\t", c) >= 0 {
+				break
+			}
+			p.i++
+		}
+		var sb []byte
+		for _, x := range p.b[st:p.i] {
+			cc, ok := x.(uint8)
+			if !ok {
+				return nil, false
+			}
+			sb = append(sb, cc)
+		}
+		s := string(sb)
+		switch s {
+		case "true":
+			return true, true
+		case "false":
+			return false, true
+		case "null":
+			return nil, true
+		}
+		var n int
+		if _, err := fmt.Sscanf(s, "%d", &n); err == nil && fmt.Sprint(n) == s {
+			return n, true
+		}
+		var f float64
+		if _, err := fmt.Sscanf(s, "%g", &f); err == nil {
+			return f, true
+		}
+		return nil, false
+	}
 }
